@@ -57,7 +57,8 @@ DEFS = ['as.buck 1000.0 0.3 32.0', 'as.morse 1.5 2.0 0.75', 'as.lj 0.25 2.5', 'm
         '>=0 as.constant 2.0 >=1.5 as.buck 500.0 0.3 10.0 >3.0 as.zero', 'as.zbl 8 92 >=0.8 as.polynomial 1.0 2.0',
         '>=0 myform 2.0 0.5 >=2.0 as.buck 500.0 0.3 10.0', 'as.bornmayer 900.0 0.3 >=3.0 myform 1.0 2.0 >=5.0 as.constant 0.5',
         '>0 as.lj 0.5 2.0 >1.0 myform 3.0 0.75',
-        'spline(>0 as.zbl 92 8 >=0.6 exp_spline >=1.2 as.buck 1761.775 0.35 0.0)', 'as.buck4 1000.0 0.3 30.0 1.2 2.0 2.6', 'tabf', 'product(as.exponential 2.0 1.5, myform 1.0 1.0)']
+        'spline(>0 as.zbl 92 8 >=0.6 exp_spline >=1.2 as.buck 1761.775 0.35 0.0)', 'as.buck4 1000.0 0.3 30.0 1.2 2.0 2.6', 'tabf', 'product(as.exponential 2.0 1.5, myform 1.0 1.0)',
+        'product(as.polynomial -2.0 1.0, as.buck 1000.0 0.3 32.0)', 'product(myform 1.0 1.0, as.polynomial -3.0 1.0)', 'sum(as.polynomial -1.0 1.0, as.constant 0.0)']
 def gen_potable_case(rng):
     n = rng.choice([1, 2, 3])
     labs, ids, srt = layout.pick_species(rng, rng.randint(1, 3))
@@ -140,7 +141,10 @@ def correspond(ctx):
     pcases = [{'potable': [['Al', 'Al', '>=0 myform 2.0 0.5 >=2.0 as.buck 500.0 0.3 10.0'], ['Al', 'Cu', 'as.bornmayer 900.0 0.3 >=3.0 myform 1.0 2.0 >=5.0 as.constant 0.5']],
                'cutoff': 10.0, 'nr': 11, 'labels': ['Al', 'Cu'], 'route': 'configuration'},
               {'potable': [['Fe', 'Fe', '>0 as.lj 0.5 2.0 >1.0 myform 3.0 0.75'], ['Fe', 'Ni', '>=0 myform 2.0 0.5 >=2.0 as.buck 500.0 0.3 10.0']],
-               'cutoff': 4.0, 'nr': 5, 'labels': ['Fe', 'Ni'], 'route': 'potable'}]
+               'cutoff': 4.0, 'nr': 5, 'labels': ['Fe', 'Ni'], 'route': 'potable'},
+              # a factor of a product with a root on a grid row (r = 2): the product's slope there is not zero
+              {'potable': [['Al', 'Al', 'product(as.polynomial -2.0 1.0, as.buck 1000.0 0.3 32.0)'], ['Al', 'Cu', 'product(myform 1.0 1.0, as.polynomial -3.0 1.0)']],
+               'cutoff': 4.0, 'nr': 5, 'labels': ['Al', 'Cu'], 'route': 'configuration'}]
     pcases += [gen_potable_case(rng) for _ in range(30 if ctx['thorough'] else 8)]
     dis = []
     runs = []
